@@ -97,6 +97,11 @@ def build(case):
     else:
         m, _ = models.build_active(spec, stimulate=True, record="all")
     n = len(m.nodes)
+    if case["k"] % 2 == 0:
+        # instance state that is not a function of (class, name): a channel renamed after construction
+        lk = Leak()
+        lk.change_name("dendLeak")
+        m.select(nodes=[n - 1]).insert(lk)
     m.select(nodes=np.arange(0, n, 2)).add_to_group("even")
     if n > 2:
         m.select(nodes=[n - 1, 0]).add_to_group("ends")
@@ -123,7 +128,7 @@ def snapshot(m):
         "trainable_params": [{k: np.array(v) for k, v in p.items()} for p in m.trainable_params],
         "indices_set_by_trainables": [np.array(i) for i in m.indices_set_by_trainables],
         "ncomp_per_branch": np.array(m.ncomp_per_branch), "comb_parents": np.array(m.comb_parents),
-        "xyzr": [np.array(a) for a in m.xyzr], "channels": [(c._name, dict(c.channel_params), dict(c.channel_states)) for c in m.channels],
+        "xyzr": [np.array(a) for a in m.xyzr], "channels": [(c._name, dict(c.channel_params), dict(c.channel_states), getattr(c, "current_name", None), type(c).__name__) for c in m.channels],
         "synapses": [(s._name, dict(s.synapse_params), dict(s.synapse_states)) for s in m.synapses],
         "membrane_current_names": list(m.membrane_current_names), "synapse_names": list(m.synapse_names),
         "num_trainable_params": int(m.num_trainable_params), "has_radius_fns": m._radius_generating_fns is not None,
@@ -302,6 +307,35 @@ def run_case(case, rec):
             pass
         except (AssertionError, ValueError, KeyError) as e:
             rec.refused("independence", e, where="editing the copy")
+    # independence, other direction: editing the ORIGINAL must not reach a copy taken before (fresh original, because the edits
+    # are destructive)
+    for method in ("pickle", "deepcopy"):
+        try:
+            m2 = build({**case, "trainable": False, "clamp": False})
+            c2 = pickle.loads(pickle.dumps(m2)) if method == "pickle" else copy.deepcopy(m2)
+            ref2 = snapshot(c2)
+            o_before = rec.call("independence", simulate, c2, backend, where="copy before editing the original")
+            from jaxley.channels import Leak
+            m2.set("radius", 7.77)
+            m2.select(nodes=[0]).insert(Leak())
+            m2.select(nodes=[0]).add_to_group("newgroup")
+            if case["base"] in ("cell", "swc") and len(m2.comb_parents) > 1:
+                m2.delete_stimuli(); m2.delete_clamps(); m2.delete_recordings(); m2.delete_trainables()
+                hc = trees.has_children([int(p) for p in m2.comb_parents])
+                for b in [i for i in range(len(hc)) if hc[i]][:1] + [len(hc) - 1]:
+                    try:
+                        m2.branch(b).set_ncomp(case["ncomp"] + 2)
+                    except (AssertionError, ValueError):
+                        pass
+            bad = snap_diff(ref2, snapshot(c2))
+            rec.check("independence", not bad, what="editing the original changed the copy", method=method, differing=bad, **tag)
+            o_after = rec.call("independence", simulate, c2, backend, where="copy after editing the original")
+            rec.check("independence", np.array_equal(o_before, o_after, equal_nan=True), what="copy simulates differently after the original was edited",
+                      method=method, **tag)
+        except Refused:
+            pass
+        except (AssertionError, ValueError, KeyError) as e:
+            rec.refused("independence", e, where="editing the original")
     # a view copies like its module
     if case["view_copy"]:
         try:
